@@ -263,25 +263,123 @@ def run(chk):
     # ---- (5) no loop-carried state in the runner --------------------------------------------------------------------------------------
     fs = src.func("eko.runner.managed.solve")
     n_loops = 0
+    n_op_stores = [0]
+
+    def loads_then_stores(node, assigned, tnames, body_assigned, carried):
+        """definite-assignment walk in statement order: a name assigned somewhere in the loop body and read on a path where this
+        iteration has not assigned it yet carries a value from the previous iteration"""
+        def expr(e, assigned):
+            for x in ast.walk(e):
+                if isinstance(x, ast.Name) and isinstance(x.ctx, ast.Load) and x.id in body_assigned and x.id not in assigned and x.id not in tnames:
+                    carried.append(x.id)
+
+        def stores(e, assigned):
+            for x in ast.walk(e):
+                if isinstance(x, ast.Name) and isinstance(x.ctx, (ast.Store, ast.Del)):
+                    assigned.add(x.id)
+
+        def block(stmts, assigned):
+            for st in stmts:
+                assigned = stmt(st, assigned)
+            return assigned
+
+        def stmt(st, assigned):
+            if isinstance(st, ast.If):
+                expr(st.test, assigned)
+                a1 = block(st.body, set(assigned))
+                a2 = block(st.orelse, set(assigned))
+                return a1 & a2
+            if isinstance(st, (ast.With, ast.AsyncWith)):
+                for it in st.items:
+                    expr(it.context_expr, assigned)
+                    if it.optional_vars is not None:
+                        stores(it.optional_vars, assigned)
+                return block(st.body, assigned)
+            if isinstance(st, (ast.For, ast.AsyncFor)):
+                expr(st.iter, assigned)
+                inner = set(assigned)
+                stores(st.target, inner)
+                block(st.body, inner)
+                block(st.orelse, set(assigned))
+                return assigned
+            if isinstance(st, ast.While):
+                expr(st.test, assigned)
+                block(st.body, set(assigned))
+                return assigned
+            if isinstance(st, ast.Try):
+                a1 = block(st.body, set(assigned))
+                for h in st.handlers:
+                    block(h.body, set(assigned))
+                a1 = block(st.orelse, a1)
+                return block(st.finalbody, a1 & assigned | assigned)
+            if isinstance(st, ast.AugAssign):
+                carried.append(ast.unparse(st.target))
+                expr(st.value, assigned)
+                return assigned
+            # simple statement: loads are evaluated before the stores of the same statement take effect
+            for x in ast.walk(st):
+                if isinstance(x, ast.Name) and isinstance(x.ctx, ast.Load) and x.id in body_assigned and x.id not in assigned and x.id not in tnames:
+                    carried.append(x.id)
+            stores(st, assigned)
+            return assigned
+
+        block(node.body, assigned)
+
     for lp in [n for n in ast.walk(fs.node) if isinstance(n, ast.For)]:
         n_loops += 1
-        assigned = set()
         carried = []
         tnames = {x.id for x in ast.walk(lp.target) if isinstance(x, ast.Name)}
         body_assigned = {x.id for st in lp.body for x in ast.walk(st) if isinstance(x, ast.Name) and isinstance(x.ctx, ast.Store)}
-        for st in lp.body:
-            for x in ast.walk(st):
-                # loads are visited before the stores of the same statement take effect
-                if isinstance(x, ast.Name) and isinstance(x.ctx, ast.Load) and x.id in body_assigned and x.id not in assigned and x.id not in tnames:
-                    carried.append(x.id)
-            for x in ast.walk(st):
-                if isinstance(x, ast.Name) and isinstance(x.ctx, ast.Store):
-                    assigned.add(x.id)
-            if isinstance(st, ast.AugAssign):
-                carried.append(ast.unparse(st.target))
+        loads_then_stores(lp, set(), tnames, body_assigned, carried)
         chk.decide(not carried, "no-state-carried-between-targets", fs.qname, f"loop `for {ast.unparse(lp.target)} in {ast.unparse(lp.iter)}` carries "
                    f"{sorted(set(carried))} from one iteration to the next", where=f"{fs.module.relpath}:{lp.lineno}",
                    instance=ast.unparse(lp.iter), how="def-use on the loop body")
+        # what is stored as the operator of a target derives from the parts only - never from the operators already in the store
+        # (those belong to the other targets of the run)
+        defs = {}
+        for x in ast.walk(lp):
+            if isinstance(x, ast.Assign):
+                for t in x.targets:
+                    for nm in ast.walk(t):
+                        if isinstance(nm, ast.Name):
+                            defs.setdefault(nm.id, []).append(x.value)
+            elif isinstance(x, (ast.With, ast.AsyncWith)):
+                for it in x.items:
+                    if it.optional_vars is not None:
+                        for nm in ast.walk(it.optional_vars):
+                            if isinstance(nm, ast.Name):
+                                defs.setdefault(nm.id, []).append(it.context_expr)
+            elif isinstance(x, ast.NamedExpr):
+                defs.setdefault(x.target.id, []).append(x.value)
+
+        def store_reads(e):
+            out = []
+            for x in ast.walk(e):
+                if isinstance(x, ast.Call) and isinstance(x.func, ast.Attribute) and x.func.attr in ("approx", "operator", "items", "__getitem__", "get"):
+                    out.append(ast.unparse(x))
+                elif isinstance(x, ast.Subscript) and isinstance(x.ctx, ast.Load) and (
+                        (isinstance(x.value, ast.Attribute) and x.value.attr == "operators") or (isinstance(x.value, ast.Name) and x.value.id == "eko")):
+                    out.append(ast.unparse(x))
+            return out
+
+        for x in ast.walk(lp):
+            if isinstance(x, ast.Assign) and any(isinstance(t, ast.Subscript) and isinstance(t.value, ast.Attribute) and t.value.attr == "operators"
+                                                 for t in x.targets):
+                n_op_stores[0] += 1
+                seen, todo, reads = set(), [x.value], []
+                while todo:
+                    e = todo.pop()
+                    reads += store_reads(e)
+                    for nm in ast.walk(e):
+                        if isinstance(nm, ast.Name) and isinstance(nm.ctx, ast.Load) and nm.id in defs and nm.id not in seen:
+                            seen.add(nm.id)
+                            todo += defs[nm.id]
+                chk.decide(not reads, "stored-operator-derives-from-the-parts-only", fs.qname,
+                           f"`{stmt_text(x)}`: the operator stored for a target is built from {sorted(set(reads))}, i.e. from operators already in "
+                           f"the store (those of the other targets of the run): the result for a target then depends on which targets are "
+                           f"computed with it and in which order", where=f"{fs.module.relpath}:{x.lineno}", instance=stmt_text(x),
+                           how="def-use closure of the stored value in the target loop")
+    chk.floor("operator stores in the target loop", n_op_stores[0], 1)
     chk.floor("runner loops", n_loops, 3)
     fel = src.func("eko.runner.recipes._elements")
     free = {n.id for n in E.own_nodes(fel.node) if isinstance(n, ast.Name) and isinstance(n.ctx, ast.Load)} - E.local_names(fel)
